@@ -790,6 +790,10 @@ class SingleRangeStaticProducer(StaticProducer):
             # this .write will spin the reactor, calling .doWrite and then
             # .resumeProducing again, so be prepared for a re-entrant call
             self.request.write(data)
+        elif self.bytesWritten < self.size:
+            # The file has shrunk since the response was computed: the rest
+            # of the range cannot be produced, so end the response here.
+            self.size = self.bytesWritten
         if self.request and self.bytesWritten == self.size:
             self.request.unregisterProducer()
             self.request.finish()
@@ -837,15 +841,20 @@ class MultipleRangeStaticProducer(StaticProducer):
                 dataLength += len(self.partBoundary)
                 data.append(self.partBoundary)
                 self.partBoundary = None
-            p = self.fileObject.read(
-                max(
-                    0,
-                    min(
-                        self.bufferSize - dataLength,
-                        self._partSize - self._partBytesWritten,
-                    ),
-                )
+            wanted = max(
+                0,
+                min(
+                    self.bufferSize - dataLength,
+                    self._partSize - self._partBytesWritten,
+                ),
             )
+            p = self.fileObject.read(wanted)
+            if wanted and not p:
+                # The file has shrunk since the response was computed: the
+                # rest of it cannot be produced, so end the response here
+                # instead of reading at the end of the file for ever.
+                done = True
+                break
             self._partBytesWritten += len(p)
             dataLength += len(p)
             data.append(p)
